@@ -107,6 +107,9 @@ func RunHeal(c *Cluster, seed uint64) *HealResult {
 				if sq := staleQuorumStuck(c); sq != "" {
 					// known finding F-M: see known_findings.json
 					c.chk.report("C15", "lv.converged", nil, msg+"; "+sq, "lv.converged.stale_quorum")
+				} else if st := staleTermRace(c); st != "" {
+					// known finding F-N: see known_findings.json
+					c.chk.report("C15", "lv.converged", nil, msg+"; "+st, "lv.converged.stale_term")
 				} else if strings.Contains(why, "auto-leave still active") {
 					// C10: a leader leaves an auto-leave joint configuration by itself once applied
 					c.chk.report2("C15", "lv.converged", "C10", "mc.autoleave_done", nil, msg, "lv.converged")
@@ -266,6 +269,83 @@ func staleQuorumStuck(c *Cluster) string {
 		return ""
 	}
 	return "no running node can win an election (for each, the running nodes that may grant it their vote do not form the quorum of the configuration it has applied) and the committed configuration has not reached every survivor: " + stale
+}
+
+// electable reports whether the running nodes that may grant node id their vote
+// (those whose log is not more up to date) contain the quorum of the
+// configuration id has applied.
+func electable(c *Cluster, id uint64) bool {
+	n := c.nodes[id]
+	if n == nil || !n.up {
+		return false
+	}
+	st := &n.st
+	if !inSet(st.Voters, id) && !inSet(st.VotersOutgoing, id) {
+		return false
+	}
+	ct, ci := c.chk.nc[id].lastID()
+	return jointMaj(st.Voters, st.VotersOutgoing, func(u uint64) bool {
+		if u == id {
+			return true
+		}
+		m := c.nodes[u]
+		if m == nil || !m.up {
+			return false
+		}
+		ut, ui := c.chk.nc[u].lastID()
+		return ct > ut || (ct == ut && ci >= ui)
+	})
+}
+
+// staleTermRace recognises known finding F-N: there is no leader although some
+// node is electable, because a running node that has not applied the committed
+// configuration (and cannot win in the one it has) keeps campaigning at a term
+// above every electable node's, and its applied configuration contains none of
+// them: it never sends them a vote request, it silently ignores their
+// lower-term requests, and they catch up with its term only by the random walk
+// of two election timers (no PreVote / CheckQuorum involved).
+func staleTermRace(c *Cluster) string {
+	if healLeader(c) != 0 {
+		return ""
+	}
+	want := c.chk.confAt(c.chk.gMax())
+	var el []uint64
+	var maxEl uint64
+	for _, id := range c.ids {
+		if electable(c, id) {
+			el = append(el, id)
+			if t := c.nodes[id].st.Term; t > maxEl {
+				maxEl = t
+			}
+		}
+	}
+	if len(el) == 0 {
+		return ""
+	}
+	for _, id := range c.ids {
+		n := c.nodes[id]
+		if !n.up || electable(c, id) || n.cfg.PreVote || n.cfg.CheckQuorum {
+			continue
+		}
+		st := &n.st
+		if !inSet(st.Voters, id) && !inSet(st.VotersOutgoing, id) {
+			continue
+		}
+		have := refConfFromLists(st.Voters, st.VotersOutgoing, st.Learners, st.LearnersNext, st.AutoLeave)
+		if have.Equal(want) || st.Term <= maxEl {
+			continue
+		}
+		knows := false
+		for _, e := range el {
+			if inSet(st.Voters, e) || inSet(st.VotersOutgoing, e) || inSet(st.Learners, e) || inSet(st.LearnersNext, e) {
+				knows = true
+			}
+		}
+		if !knows {
+			return fmt.Sprintf("node %d (term %d) still has %s applied, cannot win in it, and keeps campaigning above the term (%d) of the electable node(s) %v, which its configuration does not contain: it never asks them for their vote and ignores their lower-term requests", id, st.Term, have, maxEl, el)
+		}
+	}
+	return ""
 }
 
 func healLeader(c *Cluster) uint64 {
